@@ -278,14 +278,16 @@ def run_cases(ctx, n_models, n_states, seed_offset=0, spec_only=False):
     for m0 in models[n_models:]:
       if all(t == 'f' for t in m0.sys.link_types):
         continue
-      m = Model(m0.xml, m0.meta, motion=synthetic_motion(rng, m0.sys))
-      m.in_q = False
-      for si in range(n_states):
-        jp_, jr_ = rand_tf(rng, m.n)
-        ja, jv = rng.uniform(-1, 1, size=(m.n, 3)), rng.uniform(-1, 1, size=(m.n, 3))
-        rq, rqd = m.inv(Transform(pos=jp.asarray(jp_), rot=jp.asarray(jr_)), Motion(ang=jp.asarray(ja), vel=jp.asarray(jv)))
-        lines.append(' '.join(['inv'] + m.st + tf_tokens(jp_, jr_) + motion_tokens(ja, jv)))
-        plan.append(('inv', m, dict(q=np.asarray(rq), qd=np.asarray(rqd), src='random+synthetic-motion')))
+      for _variant in range(2):
+        m = Model(m0.xml, m0.meta, motion=synthetic_motion(rng, m0.sys))
+        m.in_q = False
+        for si in range(n_states):
+          jp_, jr_ = rand_tf(rng, m.n)
+          ja, jv = rng.uniform(-1, 1, size=(m.n, 3)), rng.uniform(-1, 1, size=(m.n, 3))
+          rq, rqd = m.inv(Transform(pos=jp.asarray(jp_), rot=jp.asarray(jr_)),
+                          Motion(ang=jp.asarray(ja), vel=jp.asarray(jv)))
+          lines.append(' '.join(['inv'] + m.st + tf_tokens(jp_, jr_) + motion_tokens(ja, jv)))
+          plan.append(('inv', m, dict(q=np.asarray(rq), qd=np.asarray(rqd), src='random+synthetic-motion')))
   res = dict(models=models, spec_failures=spec_failures, stack_hist=stack_hist, vel_meas=vel_meas,
              disagreements=[], evaluations=0, skipped=0, branch_hist={}, model_rt_max=0.0, cases=len(plan))
   if spec_only:
